@@ -157,6 +157,18 @@ Theorem C11_pickle_current_snapshot : forall st sn, snap st = Some sn -> snapsho
 Proof. exact pickle_current_snapshot. Qed.
 Print Assumptions C11_pickle_current_snapshot.
 
+(* (g) the clause "every tensor is the view at ITS OWN layout offset" of the guard cannot be dropped: with metadata equality
+   and "some view of the storage" alone, two same-dtype/shape tensors that traded places after consolidate() pass the guard
+   and the rebuild returns them un-swapped (the weakened guard is refuted; the real one rejects and the copy is right) *)
+Theorem C11_guard_offsets_necessary :
+  let st := run {| cur := t_swap; snap := None |} [OConsolidate false; OSwap [] "a"%string "b"%string] in
+  exists sn t', snap st = Some sn /\ snapshot_current_weak st sn = true /\ snapshot_current st sn = false /\
+    rebuild_t (sn_storage sn) false (sn_meta sn) = Ok t' /\
+    leaf_at (cur st) [] "a" = Some (f32 2) /\ leaf_at t' [] "a" = Some (f32 1) /\
+    exists st', pickle_roundtrip st = Ok st' /\ leaf_at (cur st') [] "a" = Some (f32 2) /\ leaf_at (cur st') [] "b" = Some (f32 1).
+Proof. exact guard_offsets_necessary. Qed.
+Print Assumptions C11_guard_offsets_necessary.
+
 (* regrouping the keys changes nothing that is looked up by key *)
 Theorem C11_reorder_lookup : forall t, nodup_t t = true ->
   forall path k, leaf_at (reorder_t t) path k = leaf_at t path k
